@@ -23,16 +23,36 @@ What is mirrored, in the order of the C++:
  8. xact.cc 388-418: all-null transactions are ignored, a remaining null amount
     is an error.
 
+ 5b. xact.cc 296-352 + pool.cc 237-320 (`exchange`): for every posting with a
+    cost, either the gain/loss adjustment (the amount's commodity carries a lot
+    price: cost := cost + (price × quantity − cost), the same difference is
+    added to the balance when the posting must balance) or the annotation of
+    the amount with the per-unit cost and the transaction date (`lotStep`);
+ Lot annotations: an annotated commodity is a commodity of its own, encoded in
+ the `Comm` string as `BASE{exact price}[date](tag)` exactly as Model/Reports.lean
+ (C05) does (`encodeLot` / `decodeLot`; price = `num/den SYMBOL`, date as
+ printed `YYYY/MM/DD`).  The annotation's price AMOUNT (with its precision
+ counter, needed for the basis cost) travels with the posting (`FPost.lotPrice`).
+ `{{total}}` is divided by |quantity| at parse time (amount.cc 1235-1240);
+ `{=fixed}` is a flag of the annotation, not part of the commodity's identity,
+ and changes nothing in finalize.  Commodities are sorted as
+ `commodity_t::compare_by_commodity` does (commodity.cc 389-520): base symbol,
+ no-price < price, price commodity symbol, price value, no-date < date, date,
+ no-tag < tag, tag (`commLe`).
+
 Parameters / not modelled (kept out of the generators):
  * `enum : Balance → Balance` is the iteration order of the
    `unordered_map<commodity_t*, amount_t>` inside `balance_t`; it is used exactly
    where the C++ walks the map (`bal.amounts.begin()` at xact.cc 252-255 and
    `sorted_amounts` at balance.cc 275-277).  Theorems assume only that it
    enumerates the entries (`(enum b).Perm b`);
- * lot annotations `{…}`/`[date]`/`(tag)` and therefore the gain/loss
-   adjustment of xact.cc 301-332 and the `has_annotation()` preference for
-   `top_post` (xact.cc 235-236) are NOT modelled; `exchange()` (pool.cc 237-320)
-   only annotates `post->amount` with the price, the quantity is unchanged;
+ * of `exchange()` only what reaches the transaction is modelled (the computed
+   annotation and the basis cost), not the price-history entry it records;
+   `((value expressions))` in annotations, `@ =cost` (POST_COST_FIXATED) and
+   `(@) virtual costs` are not modelled; the commodity pool keeps the FIRST
+   annotation object created for a (symbol, price, date, tag) key, so the
+   precision counter / fixated flag of a lot price written twice in different
+   forms is that of the first writer: generators write one lot one way;
  * `reduced()` is the identity (no scaling commodities such as s/m/h);
  * `PrecEnv` is the commodity display precision in force when `finalize` runs
    (every posting of the transaction has already been parsed, amount.cc
@@ -40,6 +60,7 @@ Parameters / not modelled (kept out of the generators):
 Core Lean only.
 -/
 import LedgerModel.Model.Journal
+import LedgerModel.Model.Calendar
 
 namespace Ledger
 namespace FinX
@@ -57,6 +78,7 @@ structure FPost where
   costCalculated : Bool
   generated : Bool
   inferred : Bool
+  lotPrice : Option Amount      -- `amount.annotation().price` (per unit), when the commodity has one
 deriving DecidableEq, Repr
 
 structure FXact where
@@ -84,12 +106,102 @@ def parseCost (env : PrecEnv) (amt : Amount) (c : Cost) : Amount :=
     { Amount.mul env c0 amt with comm := c0.comm }          -- *cost *= amount; set_commodity(cost_commodity)
   else if amt.q < 0 then c0.neg else c0                     -- in_place_negate when the amount is negative
 
-def FPost.ofPosting (env : PrecEnv) (p : Posting) : FPost :=
-  { account := p.account, kind := p.kind, state := p.state, amount := p.amount,
+/-! ### Lot annotations -/
+
+/-- the `{…} [date] (tag)` a posting amount is written with -/
+structure LotSpec where
+  price : Option Amount     -- as written inside `{…}` / `{{…}}`
+  total : Bool              -- `{{…}}`: price of the whole quantity
+  fixated : Bool            -- `{=…}`: a flag of the annotation, irrelevant to finalize
+  date : Option String      -- `[YYYY/MM/DD]`
+  tag : Option String
+deriving DecidableEq, Repr
+
+/-- a posting as written: `post.amount.comm` is the BASE symbol, `lot` its annotation -/
+structure LPosting where
+  post : Posting
+  lot : Option LotSpec
+deriving Repr
+
+structure LXact where
+  date : Int                -- days since 1970-01-01
+  posts : List LPosting
+deriving Repr
+
+def LXact.ofXact (x : Xact) : LXact := { date := x.date, posts := x.posts.map (fun p => ⟨p, none⟩) }
+
+/-- `BASE{price}[date](tag)`, the encoding of Model/Reports.lean (`Lot.encode`). -/
+def encodeLot (base price date tag : String) : Comm :=
+  if price.isEmpty && date.isEmpty && tag.isEmpty then base
+  else base ++ "{" ++ price ++ "}[" ++ date ++ "](" ++ tag ++ ")"
+
+def splitFirst (c : Char) : List Char → Option (List Char × List Char)
+  | [] => none
+  | x :: xs => if x = c then some ([], xs) else (splitFirst c xs).map (fun r => (x :: r.1, r.2))
+
+def splitFirst2 (c1 c2 : Char) : List Char → Option (List Char × List Char)
+  | [] => none
+  | [_] => none
+  | x :: y :: xs =>
+    if x = c1 ∧ y = c2 then some ([], xs)
+    else (splitFirst2 c1 c2 (y :: xs)).map (fun r => (x :: r.1, r.2))
+
+/-- (base, price, date, tag) of an encoded commodity: the inverse of `encodeLot`
+    (same reading as Model/Reports.lean `Lot.decode` on well-formed keys; written
+    by structural recursion on the characters so that it evaluates in the kernel). -/
+def decodeLot (c : Comm) : String × String × String × String :=
+  match splitFirst '{' c.toList with
+  | some (b, r) =>
+    match splitFirst2 '}' '[' r with
+    | some (p, r2) =>
+      match splitFirst2 ']' '(' r2 with
+      | some (d, r3) => (String.ofList b, String.ofList p, String.ofList d, String.ofList r3.dropLast)
+      | none => (c, "", "", "")
+    | none => (c, "", "", "")
+  | none => (c, "", "", "")
+
+/-- exact lot price inside the commodity key: `num/den SYMBOL` -/
+def priceStr (a : Amount) : String := ratStr a.q ++ " " ++ a.comm
+
+def padNat (w : Nat) (n : Nat) : String :=
+  let s := toString n
+  String.ofList (List.replicate (w - s.length) '0') ++ s
+
+/-- format_date(FMT_WRITTEN) = `%Y/%m/%d` -/
+def dateText (n : Int) : String :=
+  let ymd := Cal.toYMD n
+  padNat 4 ymd.1.toNat ++ "/" ++ padNat 2 ymd.2.1.toNat ++ "/" ++ padNat 2 ymd.2.2.toNat
+
+/-- amount.cc 1235-1240: the annotation price per unit (`{{total}}` is divided
+    by |quantity|; amount.cc raises "Divide by zero" for a zero quantity, the
+    generators never write that). Parsed with PARSE_NO_MIGRATE: precision kept. -/
+def lotPriceOf (env : PrecEnv) (a : Amount) (l : LotSpec) : Option Amount :=
+  l.price.map (fun p =>
+    let p0 : Amount := { p with keep := true }
+    if l.total then
+      match Amount.div env p0 a.abs with
+      | .ok r => r
+      | .error _ => p0
+    else p0)
+
+/-- the commodity of a written amount: the annotated commodity when a lot is given -/
+def lotComm (env : PrecEnv) (a : Amount) (lot : Option LotSpec) : Comm :=
+  match lot with
+  | none => a.comm
+  | some l => encodeLot a.comm (match lotPriceOf env a l with | some p => priceStr p | none => "")
+                (l.date.getD "") (l.tag.getD "")
+
+def FPost.ofPosting (env : PrecEnv) (lp : LPosting) : FPost :=
+  let p := lp.post
+  let amt : Option Amount := p.amount.map (fun a => { a with comm := lotComm env a lp.lot })
+  { account := p.account, kind := p.kind, state := p.state, amount := amt,
     cost := match p.amount, p.cost with
       | some a, some c => some (parseCost env a c)
       | _, _ => none,
-    calculated := false, costCalculated := false, generated := false, inferred := false }
+    calculated := false, costCalculated := false, generated := false, inferred := false,
+    lotPrice := match p.amount, lp.lot with
+      | some a, some l => lotPriceOf env a l
+      | _, _ => none }
 
 /-- xact.cc 171: `post->cost ? *post->cost : post->amount`. -/
 def costOrAmt (p : FPost) : Option Amount :=
@@ -145,16 +257,24 @@ def applyBucket (bucket : Option String) (ps : List FPost) (bal : Value) (np : O
     if ps.length = 1 ∧ isNull bal = false then
       (ps ++ [{ account := b, kind := .real, state := (ps.head?.map (·.state)).getD 0,
                 amount := none, cost := none, calculated := false, costCalculated := false,
-                generated := false, inferred := true }], some ps.length)
+                generated := false, inferred := true, lotPrice := none }], some ps.length)
     else (ps, np)
   | none => (ps, np)
 
-/-- xact.cc 230-245: (saw_cost, top_post). -/
+/-- `commodity().has_annotation()` on the encoded commodity -/
+def hasAnn (c : Comm) : Bool := (decodeLot c).1 ≠ c
+
+/-- xact.cc 230-245: (saw_cost, top_post); an annotated amount is preferred
+    (the last one wins), otherwise the first must-balance posting with an amount. -/
 def topScan : List FPost → Option FPost → Bool × Option FPost
   | [], top => (false, top)
   | p :: ps, top =>
-    let top' := if p.amount.isSome ∧ p.mustBalance then
-                  (match top with | none => some p | some t => some t) else top
+    let top' := match p.amount with
+      | some a => if p.mustBalance then
+                    (if hasAnn a.comm then some p
+                     else match top with | none => some p | some t => some t)
+                  else top
+      | none => top
     if p.cost.isSome ∧ p.costCalculated = false then (true, top') else topScan ps top'
 
 /-- xact.cc 269-280: every must-balance posting in the primary commodity gets
@@ -215,12 +335,118 @@ def costsOk (ps : List FPost) : Bool :=
     | some c, some a => a.comm ≠ c.comm
     | _, _ => true)
 
-/-- insertion of `a` before the first entry whose symbol is not smaller (stable). -/
+/-! ### xact.cc 296-352: exchange() and the gain/loss adjustment -/
+
+/-- pool.cc 259-266: the per-unit cost put into the computed annotation
+    (its own commodity stripped of annotations, no commodity when the cost has none) -/
+def perUnitCost (env : PrecEnv) (amt cost : Amount) : Except FinErr Amount :=
+  if amt.isZero env then .ok { cost.abs with comm := (decodeLot cost.comm).1 }
+  else match Amount.div env cost amt with
+    | .ok r => .ok { r.abs with comm := (decodeLot cost.comm).1 }
+    | .error e => .error (.value e)
+
+/-- pool.cc 297-309 + xact.cc 334-343: the amount's commodity gets the computed
+    price and the transaction date; a tag it already had is kept. -/
+def annotate (c : Comm) (pu : Amount) (date : String) : Comm :=
+  let d := decodeLot c
+  encodeLot d.1 (priceStr pu) date d.2.2.2
+
+/-- One posting of the loop xact.cc 288-352: (posting afterwards, gain/loss
+    to add to the balance). -/
+def lotStep (env : PrecEnv) (date : String) (p : FPost) : Except FinErr (FPost × Option Amount) :=
+  match p.cost, p.amount with
+  | some cost, some amt =>
+    match p.lotPrice with
+    | some price =>                                   -- amount.has_annotation() && annotation().price
+      let basis : Amount := { Amount.mul env price amt with keep := true }   -- (*price * amount).unrounded()
+      if basis.comm = cost.comm then                   -- basis_cost.commodity() == final_cost.commodity()
+        match Amount.sub basis cost with               -- gain_loss = basis_cost - final_cost
+        | .error e => .error (.value e)
+        | .ok gl =>
+          if gl.isZero env = false then                -- `if (amount_t gain_loss = …)`
+            let gl' : Amount := { gl with keep := false }    -- gain_loss.in_place_round()
+            match Amount.add cost gl' with             -- *post->cost += gain_loss
+            | .error e => .error (.value e)
+            | .ok c' => .ok ({ p with cost := some c' }, if p.mustBalance then some gl' else none)
+          else .ok (p, none)
+      else .ok (p, none)
+    | none =>                                          -- post->amount = breakdown.amount (annotated)
+      match perUnitCost env amt cost with
+      | .error e => .error e
+      | .ok pu => .ok ({ p with amount := some { amt with comm := annotate amt.comm pu date },
+                                lotPrice := some pu }, none)
+  | _, _ => .ok (p, none)
+
+def addGain (bal : Value) (gl : Option Amount) : Except FinErr Value :=
+  match gl with
+  | none => .ok bal
+  | some g => match Value.add bal (.amt g) with        -- add_or_set_value(balance, gain_loss.reduced())
+    | .ok b => .ok b
+    | .error e => .error (.value e)
+
+def lotLoop (env : PrecEnv) (date : String) : List FPost → Value → Except FinErr (List FPost × Value)
+  | [], bal => .ok ([], bal)
+  | p :: ps, bal =>
+    match lotStep env date p with
+    | .error e => .error e
+    | .ok (p', gl) =>
+      match addGain bal gl with
+      | .error e => .error e
+      | .ok bal' =>
+        match lotLoop env date ps bal' with
+        | .error e => .error e
+        | .ok (r, b) => .ok (p' :: r, b)
+
+/-! ### commodity_t::compare_by_commodity (commodity.cc 389-520) -/
+
+/-- lexicographic combination of two total preorders given as Bool relations -/
+def lexLe {α : Type} (r1 r2 : α → α → Bool) (a b : α) : Bool := r1 a b && (!(r1 b a) || r2 a b)
+
+def lotBase (c : Comm) : String := (decodeLot c).1
+def lotHasPrice (c : Comm) : Bool := (decodeLot c).2.1 ≠ ""
+def natOfDigits (l : List Char) : Nat := l.foldl (fun n ch => n * 10 + (ch.toNat - '0'.toNat)) 0
+
+/-- `num/den` (as `ratStr` writes it) back to a rational; 0 on anything else -/
+def ratOfChars (l : List Char) : Rat :=
+  let neg := l.head? = some '-'
+  let l' := if neg then l.drop 1 else l
+  match splitFirst '/' l' with
+  | some (n, d) =>
+    let q := mkRat (natOfDigits n) (natOfDigits d)
+    if neg then -q else q
+  | none => 0
+
+def lotPComm (c : Comm) : String :=
+  match splitFirst ' ' (decodeLot c).2.1.toList with
+  | some (_, r) => String.ofList r
+  | none => ""
+def lotPVal (c : Comm) : Rat :=
+  match splitFirst ' ' (decodeLot c).2.1.toList with
+  | some (q, _) => ratOfChars q
+  | none => 0
+def lotHasDate (c : Comm) : Bool := (decodeLot c).2.2.1 ≠ ""
+def lotDate (c : Comm) : String := (decodeLot c).2.2.1
+def lotHasTag (c : Comm) : Bool := (decodeLot c).2.2.2 ≠ ""
+def lotTag (c : Comm) : String := (decodeLot c).2.2.2
+
+def leS (f : Comm → String) (a b : Comm) : Bool := decide (f a ≤ f b)
+def leB (f : Comm → Bool) (a b : Comm) : Bool := !(f a) || f b
+def leQ (f : Comm → Rat) (a b : Comm) : Bool := decide (f a ≤ f b)
+
+/-- base symbol; no price < price; price commodity symbol; price value; no date <
+    date; date; no tag < tag; tag.  (The last component, the key itself, only
+    makes the relation antisymmetric on arbitrary strings; on well-formed keys the
+    components before it already decide.) -/
+def commLe : Comm → Comm → Bool :=
+  lexLe (leS lotBase) (lexLe (leB lotHasPrice) (lexLe (leS lotPComm) (lexLe (leQ lotPVal)
+    (lexLe (leB lotHasDate) (lexLe (leS lotDate) (lexLe (leB lotHasTag) (lexLe (leS lotTag) (leS id))))))))
+
+/-- insertion of `a` before the first entry that is not smaller (stable). -/
 def insByComm (a : Amount) : List Amount → List Amount
   | [] => [a]
-  | b :: bs => if a.comm ≤ b.comm then a :: b :: bs else b :: insByComm a bs
+  | b :: bs => if commLe a.comm b.comm then a :: b :: bs else b :: insByComm a bs
 
-/-- std::stable_sort by `compare_by_commodity` (commodity.cc 389-402: the symbol). -/
+/-- std::stable_sort by `compare_by_commodity`. -/
 def sortByComm : List Amount → List Amount
   | [] => []
   | a :: as => insByComm a (sortByComm as)
@@ -266,8 +492,9 @@ def finish (ps : List FPost) : Except FinErr FXact :=
   else if ps.any (fun p => p.amount.isNone) then .error .nullAfter
   else .ok ⟨ps⟩
 
-/-- xact_base_t::finalize on the parsed postings. -/
-def finalizeF (env : PrecEnv) (bucket : Option String) (enum : Balance → Balance)
+/-- xact_base_t::finalize on the parsed postings; `date` is the transaction
+    date as printed (used for computed annotations). -/
+def finalizeF (env : PrecEnv) (bucket : Option String) (enum : Balance → Balance) (date : String)
     (ps0 : List FPost) : Except FinErr FXact :=
   match scan ps0 0 .void none with
   | .error e => .error e
@@ -277,27 +504,34 @@ def finalizeF (env : PrecEnv) (bucket : Option String) (enum : Balance → Balan
     | .error e => .error e
     | .ok (ps2, bal2) =>
       if costsOk ps2 = false then .error .sameCommCost
-      else match fillNull enum ps2 bal2 r1.2 with
+      else match lotLoop env date ps2 bal2 with
         | .error e => .error e
-        | .ok (ps3, bal3) =>
-          if isNull bal3 = false ∧ valueIsZero env bal3 = false then .error .unbalanced
-          else finish ps3
+        | .ok (ps2', bal2') =>
+          match fillNull enum ps2' bal2' r1.2 with
+          | .error e => .error e
+          | .ok (ps3, bal3) =>
+            if isNull bal3 = false ∧ valueIsZero env bal3 = false then .error .unbalanced
+            else finish ps3
 
-def finalize (env : PrecEnv) (bucket : Option String) (enum : Balance → Balance) (x : Xact) :
+/-- the display precision of an annotated commodity is that of its base commodity
+    (`annotated_commodity_t` shares the base's `precision`); `env` is keyed by base symbol -/
+def liftEnv (env : PrecEnv) : PrecEnv := fun c => env (lotBase c)
+
+def finalize (env : PrecEnv) (bucket : Option String) (enum : Balance → Balance) (x : LXact) :
     Except FinErr FXact :=
-  finalizeF env bucket enum (x.posts.map (FPost.ofPosting env))
+  finalizeF (liftEnv env) bucket enum (dateText x.date) (x.posts.map (FPost.ofPosting (liftEnv env)))
 
 /-! ### Journal step -/
 
 /-- amount.cc 1190-1195: a parsed posting amount raises its commodity's display
     precision (costs are parsed with PARSE_NO_MIGRATE and do not). -/
-def observe (env : PrecEnv) (x : Xact) : PrecEnv := fun c =>
-  x.posts.foldl (fun m p => match p.amount with
+def observe (env : PrecEnv) (x : LXact) : PrecEnv := fun c =>
+  x.posts.foldl (fun m p => match p.post.amount with
     | some a => if a.comm = c then max m a.prec else m
     | none => m) (env c)
 
 inductive JItem
-  | xact (x : Xact)
+  | xact (x : LXact)
   | bucket (a : String)      -- `A account` / `bucket account` (textual.cc 535-539)
 
 structure JState where
